@@ -8,38 +8,41 @@
 EXTENDS LiquidPartialsBase, Json, IOUtils, Sequences
 
 Rec == ndJsonDeserialize(IOEnv.TRACE)
-VARIABLES l, tcache, incall
-tvars == <<l, tcache, incall>>
+VARIABLES l, tcache, incall, pol
+tvars == <<l, tcache, incall, pol>>
 Ev == Rec[l]
 IsEvent(e) == l <= Len(Rec) /\ Rec[l].e = e /\ l' = l + 1
 
-TraceInit == l = 1 /\ tcache = [n \in {} |-> "-"] /\ incall = [t \in Threads |-> FALSE]
+TraceInit == l = 1 /\ tcache = [n \in {} |-> "-"] /\ incall = [t \in Threads |-> FALSE] /\ pol = "lazy"
 
 \* a fresh parser (empty cache); every call of the previous run has returned
 TReset == /\ IsEvent("Reset")
           /\ \A t \in Threads : ~incall[t]
-          /\ tcache' = [n \in {} |-> "-"] /\ UNCHANGED incall
+          /\ tcache' = [n \in {} |-> "-"] /\ pol' = Ev.policy /\ UNCHANGED incall
 
 TCall == /\ IsEvent("Call") /\ Ev.t \in Threads /\ ~incall[Ev.t]
-         /\ incall' = [incall EXCEPT ![Ev.t] = TRUE] /\ UNCHANGED tcache
+         /\ incall' = [incall EXCEPT ![Ev.t] = TRUE] /\ UNCHANGED <<tcache, pol>>
 
-\* a miss observed inside the store's critical section
+\* a miss observed inside the store's critical section (lazy store); the on-demand store has neither cache nor lock:
+\* every look-up reaches the source, from any number of threads at once
 TMiss == /\ IsEvent("Miss")
          /\ Ev.name \in Names
          /\ incall[Ev.t]                          \* only a thread inside a call touches the store
-         /\ Ev.inside = 1                         \* MutualExclusion: nobody else is in there
-         /\ Ev.name \notin DOMAIN tcache          \* AtMostOneCompilePerName: a cached name never misses again
          /\ Ev.found = (Ev.name \notin Absent)    \* the source is truthful
-         /\ tcache' = MissEffect(tcache, Ev.name)
-         /\ UNCHANGED incall
+         /\ IF pol = "lazy"
+            THEN /\ Ev.inside = 1                         \* MutualExclusion: nobody else is in there
+                 /\ Ev.name \notin DOMAIN tcache          \* AtMostOneCompilePerName: a cached name never misses again
+                 /\ tcache' = MissEffect(tcache, Ev.name)
+            ELSE UNCHANGED tcache
+         /\ UNCHANGED <<incall, pol>>
 
 \* every call returns exactly what it returns when executed alone
 TReturn == /\ IsEvent("Return") /\ incall[Ev.t]
            /\ Ev.res = Ev.alone
-           /\ incall' = [incall EXCEPT ![Ev.t] = FALSE] /\ UNCHANGED tcache
+           /\ incall' = [incall EXCEPT ![Ev.t] = FALSE] /\ UNCHANGED <<tcache, pol>>
 
 TEnd == /\ IsEvent("End") /\ \A t \in Threads : ~incall[t]
-        /\ UNCHANGED <<tcache, incall>>
+        /\ UNCHANGED <<tcache, incall, pol>>
 
 TraceNext == TReset \/ TCall \/ TMiss \/ TReturn \/ TEnd
 TraceSpec == TraceInit /\ [][TraceNext]_tvars
